@@ -715,3 +715,52 @@ Lemma generate_plain_digests perm g d : NoEmbedded g -> generate perm g = Ok d -
 Proof.
   intros NE H. split; [intro I; exact (generate_plain_image perm g d NE I H) | intro N; exact (generate_plain_layers perm g d NE N H)].
 Qed.
+
+(* ---- the agreement validator decides MatchesInstalled ------------------------------------------------- *)
+Lemma filter_nil_iff {A} (f : A -> bool) l : filter f l = [] <-> forall q, In q l -> f q = false.
+Proof.
+  induction l as [|x l IH]; simpl.
+  - split; [intros _ q [] | reflexivity].
+  - destruct (f x) eqn:E.
+    + split; [discriminate | intro H; specialize (H x (or_introl eq_refl)); congruence].
+    + rewrite IH. split; [intros H q [<-|Hq]; [exact E | apply H, Hq] | intros H q Hq; apply H; right; exact Hq].
+Qed.
+
+Lemma filter_len_1 {A} (f : A -> bool) l : List.length (filter f l) = 1%nat <->
+  exists l1 p l2, l = l1 ++ p :: l2 /\ f p = true /\ forall q, In q (l1 ++ l2) -> f q = false.
+Proof.
+  split.
+  - induction l as [|x l IH]; simpl; [discriminate|]. destruct (f x) eqn:E; simpl.
+    + intro H. exists [], x, l. split; [reflexivity|]. split; [exact E|]. simpl.
+      apply filter_nil_iff. destruct (filter f l); [reflexivity | discriminate H].
+    + intro H. destruct (IH H) as (l1 & p & l2 & -> & Fp & Fq). exists (x :: l1), p, l2.
+      split; [reflexivity|]. split; [exact Fp|]. intros q [<-|Hq]; [exact E | apply Fq, Hq].
+  - intros (l1 & p & l2 & -> & Fp & Fq). rewrite filter_app. simpl. rewrite Fp.
+    rewrite (proj2 (filter_nil_iff f l1)) by (intros q Hq; apply Fq, in_or_app; left; exact Hq).
+    rewrite (proj2 (filter_nil_iff f l2)) by (intros q Hq; apply Fq, in_or_app; right; exact Hq).
+    reflexivity.
+Qed.
+
+Lemma elem_of_b_false a p : elem_of_b a p = false <-> ~ ElemOf a p.
+Proof. rewrite <- elem_of_b_iff. destruct (elem_of_b a p); split; intro H; try congruence; exfalso; apply H; reflexivity. Qed.
+
+Lemma one_elem_b_iff a ps : one_elem_b a ps = true <-> OneElem a ps.
+Proof.
+  unfold one_elem_b, OneElem. rewrite Nat.eqb_eq, filter_len_1. split.
+  - intros (l1 & p & l2 & E & Fp & Fq). exists l1, p, l2. split; [exact E|]. split; [apply elem_of_b_iff, Fp|].
+    intros q Hq. apply elem_of_b_false, Fq, Hq.
+  - intros (l1 & p & l2 & E & Fp & Fq). exists l1, p, l2. split; [exact E|]. split; [apply elem_of_b_iff, Fp|].
+    intros q Hq. apply elem_of_b_false, Fq, Hq.
+Qed.
+
+Lemma matches_installed_b_iff apks ps : matches_installed_b apks ps = true <-> MatchesInstalled apks ps.
+Proof.
+  unfold matches_installed_b, MatchesInstalled. rewrite andb_true_iff, !forallb_forall. split.
+  - intros [A B]. split.
+    + intros a Ha. apply one_elem_b_iff, A, Ha.
+    + intros p Hp. specialize (B p Hp). apply existsb_exists in B. destruct B as (a & Ha & E).
+      exists a. split; [exact Ha | apply elem_of_b_iff, E].
+  - intros [A B]. split.
+    + intros a Ha. apply one_elem_b_iff, A, Ha.
+    + intros p Hp. destruct (B p Hp) as (a & Ha & E). apply existsb_exists. exists a. split; [exact Ha | apply elem_of_b_iff, E].
+Qed.
